@@ -1,58 +1,24 @@
 import Gengo.Props.C09c
+import Gengo.Model.Snippet
+import Gengo.Props.C09e
 namespace Gengo.Template
 
 /-! ### C09: nested snippets — templates whose arguments are snippets, `Snippets`/`Fragments` -/
-
-/-- the snippet tree.  `names`/`args` of a template are its bindings in the order `T(format, args…)`
-    applies them (`t.args[name] = s`: a later binding of the same name replaces an earlier one) -/
-inductive Snip where
-  | leaf (isNil : Bool) (text : Option (List Char))   -- Block, ID, Value, Comment, Func …: a fixed rendering (`none` = it panics); also a nil interface value (`isNil = true`)
-  | tmpl (fmt : List Char) (names : List (List Char)) (args : List Snip)
-  | seq (parts : List Snip)                           -- `Snippets(…)`
-
-/-- `IsNil()` (snippet.go:31, printer__template.go:75) -/
-def Snip.isNil : Snip → Bool
-  | .leaf n _ => n
-  | .tmpl fmt _ _ => fmt.isEmpty
-  | .seq _ => false
-
-mutual
-  /-- complete rendering of a snippet (`none` = panic), with the repaired scanner -/
-  def renderS : Snip → Option (List Char)
-    | .leaf _ t => t
-    | .tmpl fmt names args => render (envList names args) true fmt
-    | .seq parts => renderSeq parts
-  /-- `Snippets.Frag`: the non-nil parts, each rendered completely, in order -/
-  def renderSeq : List Snip → Option (List Char)
-    | [] => some []
-    | s :: ss =>
-      if s.isNil then renderSeq ss
-      else match renderS s with
-        | none => none
-        | some t => (renderSeq ss).map (t ++ ·)
-  /-- the template's argument map; an argument is rendered only when a placeholder asks for it -/
-  def envList : List (List Char) → List Snip → Env
-    | n :: ns, s :: ss => fun k =>
-      match envList ns ss k with
-      | some r => some r                               -- a later binding wins
-      | none => if k = n then some (if s.isNil then none else some (renderS s)) else none
-    | _, _ => fun _ => none
-end
 
 /-- **nested templates**: rendering `T(format, bindings…)` is substituting, into the tokens of the
     format (leading newlines dropped), the *complete renderings of the bound snippets* — whatever
     they are (templates again, sequences, leaves).  The inner text reaches the output through
     `subst` only: it is never tokenized, at any nesting depth. -/
-theorem renderS_tmpl (fmt : List Char) (names : List (List Char)) (args : List Snip) :
-    renderS (.tmpl fmt names args) =
-      subst (envList names args) (tokenize ((fmt.dropWhile (· == '\n')).length + 1) (fmt.dropWhile (· == '\n'))) := by
+theorem renderS_tmpl (f6 : Bool) (fmt : List Char) (names : List (List Char)) (args : List Snip) :
+    renderS true f6 (.tmpl fmt names args) =
+      subst (envList true f6 names args) (tokenize ((fmt.dropWhile (· == '\n')).length + 1) (fmt.dropWhile (· == '\n'))) := by
   simp only [renderS, render]
   exact scan_eq_subst _ _ _ (by omega)
 
 /-- **C09 `seq_spec`**: `Snippets`/`Fragments` concatenate the renderings of the non-nil parts in
     order (when each of them renders) -/
-theorem seq_spec (parts : List Snip) (h : ∀ s ∈ parts, s.isNil = false → (renderS s).isSome = true) :
-    renderS (.seq parts) = some ((parts.filter (!·.isNil)).map fun s => (renderS s).getD []).flatten := by
+theorem seq_spec (f5 f6 : Bool) (parts : List Snip) (h : ∀ s ∈ parts, s.isNil = false → (renderS f5 f6 s).isSome = true) :
+    renderS f5 f6 (.seq parts) = some ((parts.filter (!·.isNil)).map fun s => (renderS f5 f6 s).getD []).flatten := by
   simp only [renderS]
   induction parts with
   | nil => simp [renderSeq]
@@ -66,13 +32,13 @@ theorem seq_spec (parts : List Snip) (h : ∀ s ∈ parts, s.isNil = false → (
       simp [hn', ht, ih']
 
 /-- a part that panics makes the sequence panic — unless it is nil, then it is never rendered -/
-theorem seq_panics (s : Snip) (ss : List Snip) (hn : s.isNil = false) (hp : renderS s = none) :
-    renderS (.seq (s :: ss)) = none := by
+theorem seq_panics (f5 f6 : Bool) (s : Snip) (ss : List Snip) (hn : s.isNil = false) (hp : renderS f5 f6 s = none) :
+    renderS f5 f6 (.seq (s :: ss)) = none := by
   simp [renderS, renderSeq, hn, hp]
 
 /-- a name is unbound iff no binding mentions it (a placeholder for it then panics: `flush`) -/
-theorem envList_none (names : List (List Char)) (args : List Snip) (hlen : names.length = args.length) (k : List Char) :
-    envList names args k = none ↔ k ∉ names := by
+theorem envList_none (f5 f6 : Bool) (names : List (List Char)) (args : List Snip) (hlen : names.length = args.length) (k : List Char) :
+    envList f5 f6 names args k = none ↔ k ∉ names := by
   induction names generalizing args with
   | nil => cases args <;> simp [envList]
   | cons n ns ih =>
@@ -81,7 +47,7 @@ theorem envList_none (names : List (List Char)) (args : List Snip) (hlen : names
     | cons s ss =>
       have ih' := ih ss (by simpa using hlen)
       simp only [envList, List.mem_cons, not_or]
-      cases he : envList ns ss k with
+      cases he : envList f5 f6 ns ss k with
       | some r =>
         have : ¬ (k ∉ ns) := fun hk => by rw [ih'.mpr hk] at he; cases he
         simp [this]
@@ -89,15 +55,29 @@ theorem envList_none (names : List (List Char)) (args : List Snip) (hlen : names
         have hk := ih'.mp he
         by_cases hkn : k = n <;> simp [hkn, hk]
 
+
+/-- **nested Sprintf**: rendering `Sprintf(format, args…)` is substituting, into the verb tokens of
+    the format, the complete renderings of the arguments (each rendered only when its verb is
+    reached, left to right); argument text is never scanned for verbs, at any nesting depth. -/
+theorem renderS_sprintf (f5 : Bool) (fmt : List Char) (vs ts : List Snip) :
+    renderS f5 true (.sprintf fmt vs ts) = Sprintf.subst (Sprintf.tokens fmt) (List.zipWith Sprintf.Arg.mk (renderList f5 true vs) (renderList f5 true ts)) := by
+  simp only [renderS]
+  exact Sprintf.sprintf_spec _ _
+
+/-- `SnippetWriter.Render`: a nil snippet writes nothing, any other its complete rendering -/
+theorem renderTop_spec (f5 f6 : Bool) (s : Snip) :
+    renderTop f5 f6 s = if s.isNil then some [] else renderS f5 f6 s := rfl
+
 -- `T("f(@x', @y)", x ↦ T("@y@y", y ↦ "ab"), y ↦ Snippets(nil, "c", "@x"))`: the inner `@x` of the
 -- sequence's leaf is output verbatim, not substituted
 example :
-    renderS (.tmpl "\nf(@x', @y)".toList ["x".toList, "y".toList]
+    renderS true true (.tmpl "\nf(@x', @y)".toList ["x".toList, "y".toList]
       [.tmpl "@y@y".toList ["y".toList] [.leaf false (some "ab".toList)],
        .seq [.leaf true none, .leaf false (some "c".toList), .leaf false (some "@x".toList)]])
       = some "f(abab, c@x)".toList := by
   simp [renderS, renderSeq, envList, Snip.isNil, render, scan, run, step, finish, flush, isNameChar]
 
 #print axioms renderS_tmpl
+#print axioms renderS_sprintf
 #print axioms seq_spec
 end Gengo.Template
